@@ -45,7 +45,7 @@ def mcnpLexerText (keywords : List String) (w : String) : String :=
 /-- tokens.py:ParticleLexer._expects_particle — the word stands where only a particle designator can:
     directly after the `:` or `,` of a classifier, among the entries of a MODE input (`firstWord` = the first word
     of the text before the token, if any), or as the value of SDEF's PAR (`keyBefore` = the text before the token
-    with trailing blanks, `=` and blanks stripped, lower case) -/
+    with comments removed and trailing blanks, `&`, `=` stripped, lower case) -/
 def expectsParticle (prev : Option Char) (firstWord : Option String) (keyBefore : String) : Bool :=
   let rev := keyBefore.toList.reverse
   (prev == some ':' || prev == some ',') ||
